@@ -36,6 +36,8 @@ func ToComplex(value interface{}, prec uint) (cmplx *Complex) {
 	case int64:
 		cmplx[0] = new(big.Float).SetPrec(prec).SetInt64(value)
 		cmplx[1] = new(big.Float).SetPrec(prec)
+	case uint:
+		return ToComplex(new(big.Int).SetUint64(uint64(value)), prec)
 	case uint64:
 		return ToComplex(new(big.Int).SetUint64(value), prec)
 	case *big.Float:
@@ -48,7 +50,7 @@ func ToComplex(value interface{}, prec uint) (cmplx *Complex) {
 		cmplx[0] = new(big.Float).SetPrec(prec).Set(value[0])
 		cmplx[1] = new(big.Float).SetPrec(prec).Set(value[1])
 	default:
-		panic(fmt.Errorf("invalid value.(type): must be int, int64, uint64, float64, complex128, *big.Int, *big.Float or *Complex but is %T", value))
+		panic(fmt.Errorf("invalid value.(type): must be int, int64, uint, uint64, float64, complex128, *big.Int, *big.Float or *Complex but is %T", value))
 	}
 
 	return
